@@ -39,16 +39,17 @@ type c11Fun struct {
 }
 
 type c11Scenario struct {
-	Tree    c11Node `json:"tree"`
-	Evals   int     `json:"evals"`
-	Subs    int     `json:"subscriber_threads"`
-	Fresh   bool    `json:"handlers_first_used_by_subscribes,omitempty"`
-	ObOn    bool    `json:"observe_on"`
-	SubOn   bool    `json:"subscribe_on"`
-	NoNext  bool    `json:"one_subscription_without_onnext"`
-	Reconf  string  `json:"reconfigure_while_subscribed,omitempty"` // "", "subscribeOn-nil", "subscribeOn-h3", "observeOn-nil"
-	ReconfD int     `json:"reconfigure_delay_yields,omitempty"`
-	LawSeed int     `json:"law_seed"`
+	Tree     c11Node `json:"tree"`
+	Evals    int     `json:"evals"`
+	Subs     int     `json:"subscriber_threads"`
+	Fresh    bool    `json:"handlers_first_used_by_subscribes,omitempty"`
+	DefaultH bool    `json:"observe_on_default_handler,omitempty"`
+	ObOn     bool    `json:"observe_on"`
+	SubOn    bool    `json:"subscribe_on"`
+	NoNext   bool    `json:"one_subscription_without_onnext"`
+	Reconf   string  `json:"reconfigure_while_subscribed,omitempty"` // "", "subscribeOn-nil", "subscribeOn-h3", "observeOn-nil"
+	ReconfD  int     `json:"reconfigure_delay_yields,omitempty"`
+	LawSeed  int     `json:"law_seed"`
 
 	probes map[string]int
 	log    []c11Ev
@@ -122,6 +123,7 @@ func genC11(t *simrt.Tape, tier string) Scenario {
 	// the handlers are used for the first time by the concurrent Subscribes themselves (their goroutine
 	// is identified afterwards), instead of being probed - and thereby warmed up - beforehand
 	sc.Fresh = (sc.ObOn || sc.SubOn) && t.Bool(1, 3)
+	sc.DefaultH = sc.ObOn && t.Bool(1, 6)
 	return sc
 }
 
@@ -258,7 +260,14 @@ func (sc *c11Scenario) Run(s *simrt.Sim) {
 	// (c) Subscribe from several threads with handler routing
 	var h1, h2 *fpgo.HandlerDef
 	sc.h1, sc.h2 = -1, -1
-	if sc.ObOn {
+	if sc.ObOn && sc.DefaultH {
+		// the library's default Handler, re-created inside this simulation (see C12)
+		fpgo.SimReinit()
+		h1 = fpgo.Handler.GetDefault()
+		if !sc.Fresh {
+			sc.h1 = sc.handlerTID(s, h1)
+		}
+	} else if sc.ObOn {
 		h1 = fpgo.Handler.New()
 		if !sc.Fresh {
 			sc.h1 = sc.handlerTID(s, h1)
